@@ -441,17 +441,27 @@ func main() {
 				for _, m := range modes {
 					d := csproto.NewDecoder(ref)
 					d.SetMode(m)
-					gt, gw, err := d.DecodeTag()
+					var gt int
+					var gw csproto.WireType
+					var err error
 					var got []byte
-					if err == nil {
-						if asString {
-							var s string
-							s, err = d.DecodeString()
-							got = []byte(s)
-						} else {
-							got, err = d.DecodeBytes()
+					func() {
+						defer func() {
+							if p := recover(); p != nil {
+								err = fmt.Errorf("decoder panic: %v", p)
+							}
+						}()
+						gt, gw, err = d.DecodeTag()
+						if err == nil {
+							if asString {
+								var s string
+								s, err = d.DecodeString()
+								got = []byte(s)
+							} else {
+								got, err = d.DecodeBytes()
+							}
 						}
-					}
+					}()
 					if err != nil || gt != tag || gw != 2 || !bytes.Equal(got, pl) || d.Offset() != len(ref) {
 						r.Fail("decode-ref/"+kind+"/"+tagClass(tag), id+"/"+m.String(), info{Kind: kind, Tag: tag, Mode: m.String(), Msg: fmt.Sprint(err)})
 					}
